@@ -139,3 +139,37 @@ extern "C" void harness_c29_subs()
         verif_known_end();
     VERIF_END();
 }
+
+// multi-step: a relational with ONE symbolic side against a number (also an infinity) is built first, then the symbol is
+// substituted; the result must be the relational on the two numbers
+extern "C" void harness_c29_steps()
+{
+    int ka = (int)verif_choice("ka", 4), kb = (int)verif_choice("kb", 4);
+    long nmax = verif_param("nmax", 6);
+    RCP<const Number> a = realnum(ka, "a", nmax), b = realnum(kb, "b", nmax);
+    auto third = [](const Number &n) { return is_a<Rational>(n) && mp_get_si(get_den(down_cast<const Rational &>(n).as_rational_class())) == 3; };
+    auto infd = [](const Number &n) { return is_a<RealDouble>(n) && std::isinf(down_cast<const RealDouble &>(n).i); };
+    verif_assume(!((ka == 2 && third(*b)) || (kb == 2 && third(*a))));
+    verif_assume(!((ka == 3 && infd(*b)) || (kb == 3 && infd(*a))));
+    int c = num_cmp(*a, ka, *b, kb);
+    bool mixedEqual = c == 0 && a->get_type_code() != b->get_type_code();
+    bool known = mixedEqual && verif_known("C29/equal-values-of-different-kinds", true);
+    RCP<const Basic> x = symbol("x");
+    int op = (int)verif_choice("op", 4);
+    bool left = verif_choice("symbolic_left", 2);
+    RCP<const Basic> r;
+    if (left)
+        r = op == 0 ? Lt(x, b) : op == 1 ? Le(x, b) : op == 2 ? Gt(x, b) : Ge(x, b);
+    else
+        r = op == 0 ? Lt(a, x) : op == 1 ? Le(a, x) : op == 2 ? Gt(a, x) : Ge(a, x);
+    map_basic_basic m;
+    m[x] = left ? a : b;
+    RCP<const Basic> s = r->subs(m);
+    verif_assert(is_a<BooleanAtom>(*s), "relational with numbers substituted is decided");
+    bool v = is_a<BooleanAtom>(*s) && down_cast<const BooleanAtom &>(*s).get_val();
+    bool expect = op == 0 ? c < 0 : op == 1 ? c <= 0 : op == 2 ? c > 0 : c >= 0;
+    verif_assert(v == expect, "a relational built with one symbolic side and then substituted is the numeric truth");
+    if (known)
+        verif_known_end();
+    VERIF_END();
+}
